@@ -228,7 +228,7 @@ def evaluate(ctx, case):
     b = ctx.build(sc)
     if not b.ok:
         return [], {}
-    r = common.run_one(b.exe, case.plan.text(), timeout=120)
+    r = common.run_one(b.exe, case.plan.text(), timeout=ctx.run_timeout)
     viols, runs, m = judge(ctx, sc, b, case.plan, r, True)
     return viols, runs
 
